@@ -330,6 +330,9 @@ func tableSequence(o *Out, r *rand.Rand, seqNo, nOps int) {
 			key = keys[idIdx]
 		}
 		port := 30000 + r.Intn(4)
+		if r.Intn(14) == 0 {
+			port = 0 // a record that carries no usable UDP port (relayed by somebody who dropped it)
+		}
 		seq := uint64(1 + r.Intn(3))
 		if r.Intn(9) == 0 {
 			// sequence numbers at the ends of their 64-bit range: nothing is "newer" than the largest one
